@@ -208,7 +208,7 @@ def main(argv=None):
       # (a lock-discipline obligation only exists when the rule is broken: it counts when the function itself is in
       # the baseline, i.e. was free of such accesses on the pinned tree)
       fn_in_baseline = baseline is not None and any(i.startswith(f'{prop}/{r["target"]}/') for i in baseline['clause_ids'])
-      return [o for o in failed if o['result'] == 'sat' and not o['abstracted'] and baseline is not None
+      return [o for o in failed if o['result'] == 'sat' and not o['abstracted'] and o['kind'] != 'impl-postcondition' and baseline is not None
               and (o['name'] in baseline['clause_ids'] or (o['kind'] == 'lock-discipline' and fn_in_baseline))]
 
     if not decided and r.get('bounded'):
@@ -222,7 +222,9 @@ def main(argv=None):
       if found:      # a witness that is not a listed known finding
         decided = True
       elif ran_ok:
-        strict = strict_failures()
+        # a failed loop invariant alone says that the loop is no longer the one the sidecar invariant describes - a different
+        # algorithm may keep the property - so with a stand-in that ran and found nothing it is a lost proof, not a violation
+        strict = [o for o in strict_failures() if o['kind'] != 'loop-invariant']
         if strict:
           o = strict[0]
           record_violation(dict(check='obligation', obligation=o['name'], witness=o.get('witness'), kind='no-failing-input-found',
